@@ -131,7 +131,10 @@ func (fw *faultWorld) serve(g int, b *memnet.Conn) {
 				b.Close()
 			}
 		}
-		if cut && pt == "read-first" {
+		if cut && pt == "read-first" && kind == "junk" {
+			// a well-framed message the client cannot decode (a structure with a vendor tag), then the reply as if nothing had happened
+			b.Write(ttlv.MarshalTTLV(ttlv.Value{Tag: 0x540001, Value: ttlv.Struct{{Tag: 0x540002, Value: "unsolicited"}}}))
+		} else if cut && pt == "read-first" {
 			bye()
 			return
 		}
